@@ -632,18 +632,22 @@ Proof.
 Qed.
 
 (* the unrestricted statement fails: 815 /32 prefixes give 4098 octets *)
+Definition wdr815 : list prefix := repeat {| p_ip := [10; 0; 0; 1]; p_len := 32 |} 815.
+Definition wdr815_bytes : list N := match enc_withdraw wdr815 with Some b => b | None => [] end.
+
 Theorem withdraw_roundtrip_refuted :
   exists ps bs, Forall wf_prefix ps /\ enc_withdraw ps = Some bs /\ wfb bs /\ hdr_len bs = len bs /\
                 4096 < len bs /\ dec_msg true bs = None.
 Proof.
-  exists (repeat {| p_ip := [10; 0; 0; 1]; p_len := 32 |} 815).
-  eexists. split; [|split; [vm_compute; reflexivity|]].
+  exists wdr815, wdr815_bytes. split; [|split; [|split; [|split; [|split]]]].
   - apply Forall_forall. intros x Hx. apply repeat_spec in Hx. subst. repeat split; cbn; try lia.
     repeat constructor.
-  - split; [|vm_compute; repeat split; reflexivity].
-    apply Forall_forall. intros x Hx.
-    assert (forallb (fun b => b <? 256) (match enc_withdraw (repeat {| p_ip := [10; 0; 0; 1]; p_len := 32 |} 815) with Some b => b | None => [] end) = true) by (vm_compute; reflexivity).
-    rewrite forallb_forall in H. apply N.ltb_lt. apply H. exact Hx.
+  - vm_compute. reflexivity.
+  - assert (H : forallb (fun b => b <? 256) wdr815_bytes = true) by (vm_compute; reflexivity).
+    rewrite forallb_forall in H. apply Forall_forall. intros x Hx. apply N.ltb_lt. apply H. exact Hx.
+  - vm_compute. reflexivity.
+  - vm_compute. reflexivity.
+  - vm_compute. reflexivity.
 Qed.
 
 Theorem keepalive_wf w4 :
@@ -660,5 +664,7 @@ Theorem nexthop16_refuted :
 Proof.
   exists 64512, false, true, [253;0;0;0;0;0;0;0;0;0;0;0;0;0;0;1],
     {| a_pfx := {| p_ip := [10;0;0;1]; p_len := 32 |}; a_lp := 0; a_comms := [] |}.
-  eexists. repeat split; try (vm_compute; reflexivity); try (cbn; lia); repeat constructor.
+  eexists. split; [reflexivity|]. split.
+  { split; [|split; [reflexivity | constructor]]. split; [reflexivity|]. split; [|cbn; lia]. wfb_tac. }
+  split; [wfb_tac|]. split; [reflexivity|]. split; vm_compute; reflexivity.
 Qed.
